@@ -6,8 +6,11 @@ use fontdrasil::types::Tag;
 use fontir::orchestration::WorkId;
 use fontir::paths::Paths;
 use serde_json::json;
-use std::collections::HashMap;
-use std::path::Path;
+use std::collections::{BTreeMap, HashMap};
+use std::panic::AssertUnwindSafe;
+use std::path::{Path, PathBuf};
+use std::sync::Arc;
+use vh::srcgen::{AxisSrc, Design, GlyphSrc};
 use std::str::FromStr;
 
 const RESERVED: &[char] = &['^', '>', '|', '[', '?', '+', '\\', '"', ':', '/', '<', '%', ']', '*', '\0', '\x1f', '\x7f'];
@@ -99,6 +102,294 @@ fn coq_loc(loc: &[(String, f64)]) -> String {
         let id = t.bytes().fold(0u64, |a, b| a * 256 + b as u64);
         format!("({}, {})", coq_n(id), coq_q(*v))
     })
+}
+
+// ---------------------------------------------------------------- emit-ir transparency and read-back
+/// Sources for the emit stream: glyph names that differ only by case, device names, non-ASCII names, anchors,
+/// kerning with groups (at masters that are close together), features; static and variable.
+fn gen_emit_design(rng: &mut Rng, k: usize) -> Design {
+    const NAMES: [&str; 22] = ["A", "a", "Aa", "aA", "AA", "aa", "a.B", "A.b", "con", "CON", "Con", "aux", "nul", "COM1", "a_b", "A_B",
+                               "e\u{301}", "\u{e9}", "\u{4e2d}", "x.y.z", "_", "a-b"];
+    let mut glyphs = vec![GlyphSrc::new(".notdef", 500.0).rect(50., 0., 450., 700.)];
+    let mut names: Vec<String> = Vec::new();
+    let n = rng.range(4, 14) as usize;
+    let mut pool: Vec<&str> = NAMES.to_vec();
+    for i in 0..n {
+        let idx = rng.below(pool.len() as u64) as usize;
+        let name = pool.remove(idx).to_string();
+        let mut g = GlyphSrc::new(&name, 400.0 + 10.0 * i as f64).uni(0x100 + i as u32);
+        if names.is_empty() || rng.chance(2, 3) {
+            g = g.rect(10.0 + i as f64, 0.0, 200.0 + 3.0 * i as f64, 300.0 + i as f64);
+        } else {
+            let b = rng.pick(&names).clone();
+            g = g.comp(&b, [1., 0., 0., 1., 20.0 * i as f64, 0.]);
+        }
+        if rng.chance(1, 2) {
+            g = g.anchor("top", 100.0, 400.0 + i as f64);
+        }
+        if rng.chance(1, 6) {
+            g = g.anchor("_top", 50.0, 380.0);
+        }
+        names.push(name);
+        glyphs.push(g);
+    }
+    let mut des = Design::single(&format!("Emit{k}"), glyphs);
+    let half = (names.len() / 2).max(1);
+    des.masters[0].groups = vec![("public.kern1.L".to_string(), names[..half].to_vec()), ("public.kern2.R".to_string(), names[half..].to_vec())];
+    let mut kerning = vec![("public.kern1.L".to_string(), "public.kern2.R".to_string(), -25.0)];
+    for _ in 0..rng.range(1, 8) {
+        kerning.push((rng.pick(&names).clone(), rng.pick(&names).clone(), rng.range(-60, 60) as f64));
+    }
+    kerning.sort_by(|x, y| (x.0.clone(), x.1.clone()).cmp(&(y.0.clone(), y.1.clone())));
+    kerning.dedup_by(|x, y| x.0 == y.0 && x.1 == y.1);
+    des.masters[0].kerning = kerning;
+    if rng.chance(3, 4) {
+        des.axes.push(AxisSrc { name: "Weight".into(), tag: "wght".into(), min: 400., default: 400., max: 900., ..Default::default() });
+        let base = des.masters[0].clone();
+        des.masters[0].location = vec![("Weight".into(), 400.)];
+        // further masters; sometimes two of them very close together (kerning instance file names)
+        let mut locs = vec![900.0];
+        if rng.chance(1, 2) {
+            locs.push(*rng.pick(&[650.0, 899.99, 899.999, 400.001]));
+        }
+        for (j, w) in locs.iter().enumerate() {
+            let mut m = base.clone();
+            m.name = format!("M{j}");
+            m.style = format!("M{j}");
+            m.location = vec![("Weight".into(), *w)];
+            for g in m.glyphs.iter_mut() {
+                g.advance += 30.0 + j as f64;
+                for a in g.anchors.iter_mut() {
+                    a.2 += 7.0;
+                }
+            }
+            for kp in m.kerning.iter_mut() {
+                kp.2 -= 1.0 + j as f64;
+            }
+            des.masters.push(m);
+        }
+    }
+    des
+}
+
+fn panic_text(p: Box<dyn std::any::Any + Send>) -> String {
+    if let Some(s) = p.downcast_ref::<String>() {
+        s.clone()
+    } else if let Some(s) = p.downcast_ref::<&str>() {
+        s.to_string()
+    } else {
+        "panic".into()
+    }
+}
+
+/// mem vs the value a fresh context restores from the build directory
+fn cmp_item<T: PartialEq>(label: String, mem: Option<Arc<T>>, disk: impl FnOnce() -> Arc<T>, diffs: &mut Vec<String>, compared: &mut usize) {
+    let Some(mem) = mem else { return };
+    *compared += 1;
+    match std::panic::catch_unwind(AssertUnwindSafe(disk)) {
+        Ok(d) => {
+            if *d != *mem {
+                diffs.push(format!("{label}: the value read back differs from the one in memory"));
+            }
+        }
+        Err(p) => diffs.push(format!("{label}: cannot be read back ({})", panic_text(p).chars().take(160).collect::<String>())),
+    }
+}
+
+/// write-fonts tables are persisted as their serialised bytes and a table has several in-memory representations
+/// (`string_data: Some([])` / `None`, offset markers): equal means "serialises to the same bytes"
+fn cmp_table<T: write_fonts::FontWrite + write_fonts::validate::Validate>(label: String, mem: Option<Arc<T>>, disk: impl FnOnce() -> Arc<T>, diffs: &mut Vec<String>, compared: &mut usize) {
+    let Some(mem) = mem else { return };
+    *compared += 1;
+    match std::panic::catch_unwind(AssertUnwindSafe(disk)) {
+        Ok(d) => {
+            let a = std::panic::catch_unwind(AssertUnwindSafe(|| write_fonts::dump_table(&*mem).ok())).ok().flatten();
+            let b = std::panic::catch_unwind(AssertUnwindSafe(|| write_fonts::dump_table(&*d).ok())).ok().flatten();
+            match (a, b) {
+                (Some(a), Some(b)) => {
+                    if a != b {
+                        diffs.push(format!("{label}: the table read back serialises to different bytes than the one in memory"));
+                    }
+                }
+                (Some(_), None) => diffs.push(format!("{label}: the table read back can no longer be serialised (the one in memory can)")),
+                _ => diffs.push(format!("{label}: the table in memory cannot be serialised")),
+            }
+        }
+        Err(p) => diffs.push(format!("{label}: cannot be read back ({})", panic_text(p).chars().take(160).collect::<String>())),
+    }
+}
+
+/// diagnostics (VH_C14_DEBUG): both renderings of an item that does not read back equal
+fn show_diff<T: PartialEq + std::fmt::Debug>(label: &str, mem: Option<Arc<T>>, disk: impl FnOnce() -> Arc<T>) {
+    if std::env::var("VH_C14_DEBUG").is_err() {
+        return;
+    }
+    if let (Some(m), Ok(d)) = (mem, std::panic::catch_unwind(AssertUnwindSafe(disk))) {
+        if *m != *d {
+            eprintln!("=== {label}\n--- memory\n{:#?}\n--- disk\n{:#?}", *m, *d);
+        }
+    }
+}
+
+/// the same for types without PartialEq: compared through their Debug rendering
+fn cmp_item_dbg<T: std::fmt::Debug>(label: String, mem: Option<Arc<T>>, disk: impl FnOnce() -> Arc<T>, diffs: &mut Vec<String>, compared: &mut usize) {
+    let Some(mem) = mem else { return };
+    *compared += 1;
+    match std::panic::catch_unwind(AssertUnwindSafe(disk)) {
+        Ok(d) => {
+            if format!("{:?}", *d) != format!("{:?}", *mem) {
+                diffs.push(format!("{label}: the value read back differs from the one in memory"));
+            }
+        }
+        Err(p) => diffs.push(format!("{label}: cannot be read back ({})", panic_text(p).chars().take(160).collect::<String>())),
+    }
+}
+
+struct EmitResult {
+    font_plain: Result<Vec<u8>, String>,
+    font_emit: Result<Vec<u8>, String>,
+    diffs: Vec<String>,
+    compared: usize,
+    glyphs: usize,
+    glyph_files: usize,
+    missing_glyph_files: Vec<String>,
+}
+
+fn run_emit(path: &Path) -> EmitResult {
+    let make = |ir: Option<PathBuf>| -> Result<(Box<dyn fontir::source::Source>, fontc::Options), String> {
+        let input = fontc::Input::new(path).map_err(|e| e.to_string())?;
+        let source = input.create_source().map_err(|e| e.to_string())?;
+        let mut options = fontc::Options::default();
+        options.ir_dir = ir;
+        Ok((source, options))
+    };
+    let font_plain = match std::panic::catch_unwind(AssertUnwindSafe(|| {
+        let (s, o) = make(None)?;
+        fontc::generate_font(s, o).map_err(|e| e.to_string())
+    })) {
+        Ok(r) => r,
+        Err(p) => Err(format!("panic: {}", panic_text(p))),
+    };
+    let tmp = vh::srcgen::scratch_dir("c14ir");
+    let ir_dir = tmp.path().join("build");
+    let built = std::panic::catch_unwind(AssertUnwindSafe(|| {
+        let (s, o) = make(Some(ir_dir.clone()))?;
+        fontc::verif_hooks::generate_font_with_contexts(s, o).map_err(|e| e.to_string())
+    }));
+    let mut res = EmitResult { font_plain, font_emit: Err(String::new()), diffs: vec![], compared: 0, glyphs: 0, glyph_files: 0, missing_glyph_files: vec![] };
+    let (fe, be) = match built {
+        Ok(Ok(x)) => x,
+        Ok(Err(e)) => {
+            res.font_emit = Err(e);
+            return res;
+        }
+        Err(p) => {
+            res.font_emit = Err(format!("panic: {}", panic_text(p)));
+            return res;
+        }
+    };
+    res.font_emit = Ok(be.font.get().get().to_vec());
+    // fresh contexts over the same build directory: nothing in memory, everything restored from disk
+    let fe2 = fontir::orchestration::Context::new_root(fe.flags, Some(ir_dir.clone()));
+    let be2 = fontbe::orchestration::Context::new_root(be.flags, None, Some(ir_dir.clone()), None, false, &fe2);
+    let (d, c) = (&mut res.diffs, &mut res.compared);
+    macro_rules! item {
+        ($ctx:ident, $ctx2:ident, $f:ident) => {
+            cmp_item(format!("{}.{}", stringify!($ctx), stringify!($f)), $ctx.$f.try_get(), || $ctx2.$f.get(), d, c)
+        };
+    }
+    macro_rules! table {
+        ($f:ident) => {
+            cmp_table(format!("be.{}", stringify!($f)), be.$f.try_get(), || be2.$f.get(), d, c)
+        };
+    }
+    item!(fe, fe2, static_metadata);
+    item!(fe, fe2, preliminary_glyph_order);
+    item!(fe, fe2, glyph_order);
+    item!(fe, fe2, preliminary_gdef_categories);
+    item!(fe, fe2, gdef_categories);
+    item!(fe, fe2, global_metrics);
+    item!(fe, fe2, features);
+    item!(fe, fe2, kerning_locations);
+    item!(fe, fe2, colors);
+    item!(fe, fe2, paint_graph);
+    for (id, v) in fe.glyphs.all() {
+        cmp_item(format!("fe.glyphs[{id:?}]"), Some(v), || fe2.glyphs.get(&id), d, c);
+    }
+    for (id, v) in fe.anchors.all() {
+        cmp_item(format!("fe.anchors[{id:?}]"), Some(v), || fe2.anchors.get(&id), d, c);
+    }
+    for (id, v) in fe.kerning_at.all() {
+        cmp_item(format!("fe.kerning_at[{id:?}]"), Some(v), || fe2.kerning_at.get(&id), d, c);
+    }
+    item!(be, be2, avar);
+    table!(cmap);
+    table!(fvar);
+    table!(gasp);
+    item!(be, be2, glyf);
+    table!(gsub);
+    table!(gpos);
+    table!(gdef);
+    item!(be, be2, gvar);
+    // post: glyph names must be ASCII (a Pascal string of printable ASCII); a source with other names is outside the
+    // compared set for this one table (read-fonts drops such strings). A version 2 table without custom names gets its
+    // own label: write-fonts reads `string_data` back as None and can then no longer serialise the table.
+    let ascii_names = fe.glyphs.all().iter().all(|(id, _)| matches!(id, WorkId::Glyph(n) if n.as_str().is_ascii()));
+    if ascii_names {
+        let no_custom = be.post.try_get().map(|p| p.string_data.as_ref().map(|v| v.is_empty()).unwrap_or(false)).unwrap_or(false);
+        cmp_table(if no_custom { "be.post-without-custom-names".to_string() } else { "be.post".to_string() }, be.post.try_get(), || be2.post.get(), d, c);
+        show_diff("be.post", be.post.try_get(), || be2.post.get());
+    }
+    item!(be, be2, loca);
+    item!(be, be2, loca_format);
+    table!(maxp);
+    table!(name);
+    table!(os2);
+    table!(head);
+    table!(hhea);
+    item!(be, be2, hmtx);
+    table!(hvar);
+    table!(mvar);
+    table!(stat);
+    item!(be, be2, all_kerning_pairs);
+    item!(be, be2, font);
+    for (id, v) in be.glyphs.all() {
+        cmp_item_dbg(format!("be.glyphs[{id:?}]"), Some(v), || be2.glyphs.get(&id), d, c);
+    }
+    for (id, v) in be.gvar_fragments.all() {
+        cmp_item_dbg(format!("be.gvar_fragments[{id:?}]"), Some(v), || be2.gvar_fragments.get(&id), d, c);
+    }
+    for (id, v) in be.kern_fragments.all() {
+        cmp_item(format!("be.kern_fragments[{id:?}]"), Some(v), || be2.kern_fragments.get(&id), d, c);
+    }
+    // one file per glyph, named by string_to_filename (tied to the Coq model by the first stream)
+    let glyph_dir = ir_dir.join("glyph_ir");
+    let files: std::collections::BTreeSet<String> = std::fs::read_dir(&glyph_dir)
+        .map(|rd| rd.filter_map(|e| e.ok()).map(|e| e.file_name().to_string_lossy().into_owned()).collect())
+        .unwrap_or_default();
+    res.glyph_files = files.len();
+    let all = fe.glyphs.all();
+    res.glyphs = all.len();
+    for (id, _) in all {
+        if let WorkId::Glyph(name) = id {
+            let f = string_to_filename(name.as_str(), ".yml");
+            if !files.contains(&f) {
+                res.missing_glyph_files.push(format!("{} -> {}", name, f));
+            }
+        }
+    }
+    res
+}
+
+fn emit_corpus() -> Vec<PathBuf> {
+    let td = vh::repo_root().join("resources/testdata");
+    ["wght_var.designspace", "glyphs3/WghtVar.glyphs", "glyphs3/WghtVar_Anchors.glyphs", "glyphs2/WghtVar_ImplicitAxes.glyphs",
+     "designspace_from_glyphs/WghtVar.designspace", "glyphs3/COLRv1-simple.glyphs", "glyphs3/Oswald-glyphs3-O.glyphs",
+     "MVAR.designspace", "static.designspace", "glyphs3/KernImplicitAxes.glyphs", "glyphs2/Mono.glyphs"]
+        .iter()
+        .map(|r| td.join(r))
+        .filter(|p| p.exists())
+        .collect()
 }
 
 fn main() {
@@ -210,5 +501,60 @@ fn main() {
         emit_case(id, "kernfile", coq, None, !same_loc, format!("k:{:?}{:?}", a, b), json!({"a": a, "b": b, "impl_same_file": same_file}));
         id += 1;
     }
-    emit_stat(json!({"names_checked_for_collisions": names, "distinct_folded_outputs": seen.len(), "kern_location_pairs": pairs, "extra_evaluations": names - n}));
+    // ---- emit-ir: transparent (same font bytes) and faithful (every item reads back equal) -------------
+    // SAFETY: single-threaded at this point; fixes head.modified so that two builds can be compared
+    unsafe { std::env::set_var("SOURCE_DATE_EPOCH", "1700000000") };
+    if std::env::var("VH_LOUD").is_err() {
+        vh::srcgen::quiet_panics();
+    }
+    let n_emit = arg_val(args, "--emit", 24) as usize;
+    let mut emit_sources: Vec<(String, PathBuf, Option<tempfile::TempDir>)> = emit_corpus().into_iter().map(|p| (format!("testdata/{}", p.file_name().unwrap().to_string_lossy()), p, None)).collect();
+    for k in 0..n_emit {
+        let d = gen_emit_design(&mut rng, k);
+        let tmp = vh::srcgen::scratch_dir("c14src");
+        let p = d.write(&tmp.path().join("src"));
+        emit_sources.push((format!("generated-{k}"), p, Some(tmp)));
+    }
+    let (mut emit_runs, mut emit_fonts, mut items_compared, mut emit_errors) = (0usize, 0usize, 0usize, BTreeMap::<String, usize>::new());
+    for (label, path, _keep) in &emit_sources {
+        let r = run_emit(path);
+        emit_runs += 1;
+        items_compared += r.compared;
+        match (&r.font_plain, &r.font_emit) {
+            (Ok(a), Ok(b)) => {
+                emit_fonts += 1;
+                if a != b {
+                    emit_violation("emit-ir-changes-font", format!("{label}: the font built with an IR directory differs from the one built without ({} vs {} bytes)", b.len(), a.len()),
+                                   json!({"source": label, "path": path}));
+                }
+            }
+            (Ok(_), Err(e)) | (Err(e), Ok(_)) => {
+                emit_violation("emit-ir-changes-outcome", format!("{label}: building with and without an IR directory end differently: {}", e.chars().take(200).collect::<String>()),
+                               json!({"source": label, "path": path, "plain_ok": r.font_plain.is_ok(), "emit_ok": r.font_emit.is_ok()}));
+            }
+            (Err(e), Err(_)) => {
+                *emit_errors.entry(e.chars().take(60).collect()).or_default() += 1;
+            }
+        }
+        // one violation per kind of item: key = what failed + the item (map keys stripped)
+        let mut by_key: BTreeMap<String, Vec<String>> = BTreeMap::new();
+        for x in &r.diffs {
+            let item = x.split(':').next().unwrap_or("").split('[').next().unwrap_or("").to_string();
+            let kind = if x.contains("cannot be read back") { "ir-item-cannot-be-read-back" } else { "ir-item-read-back-differs" };
+            by_key.entry(format!("{kind}:{item}")).or_default().push(x.clone());
+        }
+        for (key, items) in by_key {
+            emit_violation(&key, format!("{label}: {} of {} persisted items: {}", items.len(), r.compared, items[0]),
+                           json!({"source": label, "path": path, "items": items}));
+        }
+        if !r.missing_glyph_files.is_empty() || (r.font_emit.is_ok() && r.glyph_files != r.glyphs) {
+            emit_violation("ir-glyph-files-missing-or-shared", format!("{label}: {} glyphs but {} files in glyph_ir; missing: {:?}", r.glyphs, r.glyph_files, r.missing_glyph_files),
+                           json!({"source": label, "path": path, "missing": r.missing_glyph_files}));
+        }
+        emit(json!({"type": "case", "id": id, "kind": "emit-ir", "nontrivial": r.compared > 10, "sig": format!("e:{label}"), "source": label,
+                    "items_compared": r.compared, "glyphs": r.glyphs, "font": r.font_emit.is_ok()}));
+        id += 1;
+    }
+    emit_stat(json!({"names_checked_for_collisions": names, "distinct_folded_outputs": seen.len(), "kern_location_pairs": pairs, "extra_evaluations": names - n,
+                     "emit_ir_sources": emit_runs, "emit_ir_fonts_compared": emit_fonts, "emit_ir_items_read_back": items_compared, "emit_ir_build_errors": emit_errors}));
 }
